@@ -191,7 +191,7 @@ Definition lb_ops (b : backend) (x : vals) : list op :=
                 | VStruct m p _ => VStruct m p (Some ((b_host b ++ p)%string, url_query (qry_x x)))
                 | v => v end)].
 Definition http_ops (x : vals) : list op :=
-  ORd FStruct :: ORd FHdr :: (if has_body_x x then [ORd FBody; OWr FBody (VBody "")] else []).
+  ORd FVals :: ORd FStruct :: ORd FHdr :: (if has_body_x x then [ORd FBody; OWr FBody (VBody "")] else []).
 Definition rb_ops (b : backend) (x : vals) : list op :=
   [ORd FStruct; ORd FPar;
    OWr FStruct (match x FStruct with
